@@ -3,8 +3,10 @@ package proxy
 import (
 	"crypto/tls"
 	"errors"
+	"math"
 	"net"
 	"net/http"
+	"strconv"
 	"strings"
 
 	"github.com/fabiolb/fabio/config"
@@ -13,7 +15,14 @@ import (
 // addResponseHeaders adds/updates headers in the response
 func addResponseHeaders(w http.ResponseWriter, r *http.Request, cfg config.Proxy) error {
 	if r.TLS != nil && cfg.STSHeader.MaxAge > 0 {
-		sts := "max-age=" + i32toa(int32(cfg.STSHeader.MaxAge))
+		// the option is an int: a value beyond 32 bits must not be truncated
+		// (2147483648 became -2147483648 and 4294967296 became 0)
+		var sts string
+		if n := cfg.STSHeader.MaxAge; n <= math.MaxInt32 {
+			sts = "max-age=" + i32toa(int32(n))
+		} else {
+			sts = "max-age=" + strconv.FormatInt(int64(n), 10)
+		}
 		if cfg.STSHeader.Subdomains {
 			sts += "; includeSubdomains"
 		}
